@@ -118,16 +118,19 @@ def processCase (cfg : ParseCfg) (c : Case) : Array String := Id.run do
           if walked then
             out := out.v cid o.n "C13" "K" (tcb == nterm) s!"termcb calls={tcb} TERM nodes={nterm}"
             -- deep tie with the model of free_tree_reduce / free_tree_sweep (Model/FreeTree.lean):
-            -- number of blocks released and callbacks made (name blocks are per rule in C and per
-            -- string in the model: compared only when no two rules share an abstract node name)
+            -- number of blocks released and callbacks made.  Name blocks are per rule in C and per
+            -- string in the model: the harness reports the block that holds every node's name
+            -- (`nameblk`), and the table handed to the model names every abstract node after it
             let tab := o.nodeTable
             let rootId := toNat (((o.first "root").getD ["0"]).headD "0")
-            let names := match st.defn with
-              | some g => g.rules.filterMap (·.anode) | none => []
-            let uniqueNames := names.length == (strSet names).length
+            let nb : List (Nat × String) := (o.get "nameblk").map fun w => (toNat (w.headD "0"), w.getD 1 "?")
+            let nanodes := (tab.toList.filter fun r => match r with | .anode .. => true | _ => false).length
+            let tab' : Array NodeRec := (tab.toList.zipIdx.map fun (r, i) => match r with
+              | .anode n c ks => NodeRec.anode (n ++ "#" ++ ((nb.find? (·.1 == i)).map (·.2)).getD "?") c ks
+              | r => r).toArray
             let live := kvInt ws "liveblocks"
-            if tableWF tab && !hasBad tab && uniqueNames && live == 0 && kvInt ws "kind" == 1 then
-              let evs := freeTree tab rootId
+            if tableWF tab && !hasBad tab && nb.length == nanodes && live == 0 && kvInt ws "kind" == 1 then
+              let evs := freeTree tab' rootId
               let nfree := ((o.get "ev").filter fun w => w.headD "" == "f").length
               out := out.v cid o.n "C13" "D" (nfree == (freedBlocks evs).length && tcb == Int.ofNat (termCalls evs).length)
                 s!"free_tree released {nfree} blocks / {tcb} callbacks, model {(freedBlocks evs).length} / {(termCalls evs).length}"
